@@ -320,6 +320,14 @@ def _emit_type(asm, out, kind, kv, maps, drops, adds=()):
         body = body[:k] + '    %s,  // ghost field added by the contract (specification state, erased)\n' % f + body[k:]
         asm.dropped.append('%s: ghost field `%s` added' % (kv['name'], f))
     body = '\n'.join(l for l in body.split('\n') if l.strip())
+    discr_fn = None
+    if kind == 'enum' and kv.get('discr'):
+        # the discriminants of a fieldless enum without explicit values are 0, 1, 2, ... in declaration order (Rust reference)
+        vs = _variants_of(body)
+        if any(t for _, t in vs) or '=' in body[body.index('{'):]:
+            raise ExtractError("enum %s: discr= needs a fieldless enum without explicit discriminants" % kv['name'])
+        arms = ' '.join('%s::%s => %du8,' % (kv['name'], v, i) for i, (v, _) in enumerate(vs))
+        discr_fn = 'pub open spec fn %s(x: %s) -> u8 { match x { %s } }  // generated from the declaration order at %s' % (kv['discr'], kv['name'], arms, kv['file'])
     pre = kv.get('attrs', '')
     if pre:
         out.append(pre)
@@ -329,6 +337,8 @@ def _emit_type(asm, out, kind, kv, maps, drops, adds=()):
         asm.dropped.append('%s: derive(%s) dropped' % (kv['name'], ', '.join(dropped_derives)))
     out.append('// extracted %s:%d (comments dropped; derives kept: %s)' % (kv['file'], src.line_of(it.start), ', '.join(keep) or 'none'))
     out.extend(body.split('\n'))
+    if discr_fn:
+        out.append(discr_fn)
     asm.functions.append({'name': '%s %s' % (kind, kv['name']), 'file': kv['file'], 'line': src.line_of(it.start),
                           'sha256': hashlib.sha256(txt.encode()).hexdigest(), 'props': []})
 
@@ -525,6 +535,28 @@ def _emit_trace(asm, out, unit, header, block, default_props, skip_fns=None):
     asm.trace_types[tname] = {'members': members, 'managed': managed}
 
 
+def _ret_arrow(sig):
+    """match object-like (start, rtype) for the `) -> T` that follows the parameter list (not an arrow inside a parameter type)"""
+    i = sig.find('(')
+    if i < 0:
+        return None
+    depth = 0
+    k = i
+    while k < len(sig):
+        c = sig[k]
+        if c == '(':
+            depth += 1
+        elif c == ')':
+            depth -= 1
+            if depth == 0:
+                break
+        k += 1
+    m = re.match(r'\)\s*->\s*(.+)$', sig[k:], re.S)
+    if not m:
+        return None
+    return k, m.group(1)
+
+
 def _emit_fn_stub(asm, out, unit, kv, block, default_props, reason):
     """The function could not be brought into the verifier (lost anchor / unsupported construct). Emit its CONTRACT as an
     assumed external_body stub so that callers and the other functions are still checked; every obligation of this
@@ -559,9 +591,9 @@ def _emit_fn_stub(asm, out, unit, kv, block, default_props, reason):
             sig = sig.replace(a, b)
         ret = kv.get('ret')
         if ret:
-            m = re.search(r'\)\s*->\s*(.+)$', sig, re.S)
+            m = _ret_arrow(sig)
             if m:
-                sig = sig[:m.start()] + ') -> (%s: %s)' % (ret, m.group(1).strip())
+                sig = sig[:m[0]] + ') -> (%s: %s)' % (ret, m[1].strip())
         asm.functions.append({'name': fname + ' (NOT verified: ' + reason[:120] + ')', 'file': kv['file'], 'line': ft.line, 'sha256': ft.sha, 'props': props})
     except ExtractError:
         sig = None
@@ -693,16 +725,16 @@ def _emit_fn(asm, out, unit, kv, block, default_props):
     # --- name the return value
     ret = kv.get('ret')
     if ret:
-        m = re.search(r'\)\s*->\s*(.+)$', sig, re.S)
+        m = _ret_arrow(sig)
         if not m:
             raise ExtractError("%s: no return type to name" % fname)
-        rtype = m.group(1).strip()
+        rtype = m[1].strip()
         wh = ''
         mw = re.search(r'\bwhere\b', rtype)
         if mw:
             wh = ' ' + rtype[mw.start():]
             rtype = rtype[:mw.start()].strip()
-        sig = sig[:m.start()] + ') -> (%s: %s)%s' % (ret, rtype, wh)
+        sig = sig[:m[0]] + ') -> (%s: %s)%s' % (ret, rtype, wh)
     # --- loops: insert specs between header and '{'
     lps = rsx.find_loops(body)
     inserts = []   # (pos, text)
@@ -742,6 +774,26 @@ def _emit_fn(asm, out, unit, kv, block, default_props):
             inserts.append((1, '\n        ' + text + '\n'))
         elif where == 'body.end':
             inserts.append((len(body) - 1, '\n        ' + text + '\n'))
+        elif where == 'body.tail':
+            # just before the tail expression: after the last statement end (`;` or a block's `}`) at depth 1
+            mask_t = rsx.code_mask(body)
+            depth = 0
+            last = 1
+            for kk, ch in enumerate(body):
+                if not mask_t[kk]:
+                    continue
+                if ch in '([{':
+                    depth += 1
+                elif ch in ')]}':
+                    depth -= 1
+                    if depth == 1 and ch == '}' and body[kk + 1:].strip() != '}':
+                        # a block statement ended (only counts if something follows it, i.e. it is not the tail itself)
+                        rest = body[kk + 1:].lstrip()
+                        if not rest.startswith('else') and not rest.startswith('.') and not rest.startswith('?'):
+                            last = kk + 1
+                elif ch == ';' and depth == 1:
+                    last = kk + 1
+            inserts.append((last, '\n        ' + text + '\n'))
         else:
             m = re.match(r'loop(\d+)\.(start|end)', where)
             if not m:
@@ -756,7 +808,7 @@ def _emit_fn(asm, out, unit, kv, block, default_props):
     for ba, anchor, text in befores:
         if ba in ('before_stmt', 'after_stmt'):
             # anchor = the first words of a statement (robust against edits later in the statement)
-            pat = r'\s*'.join(re.escape(p) for p in anchor.split())
+            pat = r'\s*'.join(re.escape(p) for p in re.findall(r'\w+|\S', anchor))
             ms = [m for m in re.finditer(pat, body)]
             mask_b = rsx.code_mask(body)
             ms = [m for m in ms if mask_b[m.start()]]
